@@ -735,7 +735,10 @@ def c_kwmap(m):
 
 
 def extract(root=PKG_ROOT):
-    ex = Extractor(root).run()
+    return extract_from(Extractor(root).run())
+
+
+def extract_from(ex):
     deco = extract_decorators(ex.pkg)
     toml = toml_parameter_names(ex.pkg)
     for a in ex.aliases:
@@ -801,3 +804,588 @@ def gen_all(ctx):
     tab = extract()
     ctx.gen('AliasTable', emit(tab))
     return tab
+
+
+# ==============================================================================================
+# Harness: static oracles, streams, run / replay
+# ==============================================================================================
+ASSUME = [
+    'a function object is identified with its definition site (module, owner class, name, first line): one def '
+    'statement executed once at import creates one function object; checked at run time against co_firstlineno / '
+    'co_qualname of every alias and of every function reached (streams alias_enum, alias_reach)',
+    'classes are the top-level classes of the package; external base classes contribute no biogeme attribute; user '
+    'subclasses outside the package are not enumerated (the wrapper theorem T20e covers every calling context, the '
+    'table theorems cover the 118 package classes)',
+    'the body of a replacement is not modelled: "same result and side effects" is proved as "the same function object is '
+    'entered with the same arguments after exactly one DeprecationWarning" and observed by stream alias_dyn',
+    'static and module-level aliases receive no receiver: T20b_no_receiver_sound proves the side conditions '
+    '(static aliases are nullary; no package class dictionary holds the replacement of a module-level alias)',
+]
+TRUSTED = [
+    'tie A: the fail-closed ast extractor in /verif/lib/props/C20.py (whole package, re-run on every check); its output '
+    'is cross-checked on every run against Python itself: __deprecated__ objects, closures of deprecated_parameters, '
+    'cls.__mro__, inspect.getattr_static (stream alias_enum) and the function actually entered (stream alias_reach)',
+    'the reviewed exception tables in Model/Alias.v (3 renamed aliases, 3 declared-signature deviations), justified there',
+    'the recipes of stream alias_dyn (representative arguments); coverage is reported, not assumed',
+]
+
+
+def fold(s):
+    return s.replace('_', '').lower()
+
+
+def alias_key(a):
+    return f'{a["mod"]}:{a["owner"] + "." if a["owner"] else ""}{a["old"]}'
+
+
+def py_mro_lookup(tab, cls, name):
+    for k in tab['classes'][cls]['mro']:
+        d = tab['classes'][k]['dict']
+        if name in d:
+            return k, d[name]
+    return None
+
+
+def py_exposes(tab):
+    """(class, old name, alias index) for every class exposing an alias"""
+    out = []
+    names = {a['old'] for a in tab['aliases'] if a['owner']}
+    for q in sorted(tab['classes']):
+        for n in sorted(names):
+            r = py_mro_lookup(tab, q, n)
+            if r and r[1][0] == 'Alias':
+                out.append((q, n, r[1][1]))
+    return out
+
+
+def documented_replacement(tab, ex_pkg, a):
+    """The replacement the OLD NAME designates, independently of the decorator's argument:
+    docstring 'Same as X' > reviewed renaming > the unique live function of the same scope whose
+    folded name equals the folded old name."""
+    if a['doc_same_as']:
+        return a['doc_same_as']
+    k = (a['mod'], a['owner'], a['old'])
+    if k in RENAMED:
+        return RENAMED[k]
+    cands = set()
+    if a['owner']:
+        q = f'{a["mod"]}:{a["owner"]}'
+        for kq in tab['classes'][q]['mro']:
+            for n, v in tab['classes'][kq]['dict'].items():
+                if v[0] == 'Fn' and fold(n) == fold(a['old']) and n != a['old']:
+                    cands.add(n)
+    if not cands:
+        m = ex_pkg.modules[a['mod']]
+        for b in m.bind:
+            if b[2] in ('def', 'from') and fold(b[0]) == fold(a['old']) and b[0] != a['old']:
+                if b[2] == 'def' and any(isinstance(d, ast.Call) and getattr(d.func, 'id', getattr(d.func, 'attr', '')) == 'deprecated'
+                                         for d in b[3].decorator_list):
+                    continue
+                cands.add(b[0])
+    return sorted(cands)[0] if len(cands) == 1 else None
+
+
+# ----------------------------------------------------------------------------- static oracles
+def params_agree(a):
+    kw = dict(a['captured_kwmap'])
+
+    def ok(o, n):
+        return (o['name'] == n['name'] or kw.get(o['name']) == n['name']) and o['kind'] == n['kind'] and o['default'] == n['default']
+
+    op, np_ = a['old_params'], a['new_params']
+    return len(op) == len(np_) and all(ok(o, n) for o, n in zip(op, np_))
+
+
+PARAM_EXC = {  # mirror of Alias.param_exceptions_reviewed (the theorem uses the Coq table)
+    ('biogeme.database', 'Database', 'generateDraws'): ('rename', 1, 'types', 'draw_types'),
+    ('biogeme.models.nested', '', 'getMevForNested'): ('rename', 0, 'V', 'util'),
+    ('biogeme.expressions.base_expressions', 'Expression', 'getValueAndDerivatives'): ('extra', ['named_results']),
+}
+
+
+def params_agree_modulo(a):
+    if params_agree(a):
+        return True
+    e = PARAM_EXC.get((a['mod'], a['owner'], a['old']))
+    if not e:
+        return False
+    b = dict(a)
+    if e[0] == 'rename':
+        ps = [dict(p) for p in a['old_params']]
+        if e[1] < len(ps) and ps[e[1]]['name'] == e[2]:
+            ps[e[1]]['name'] = e[3]
+        b['old_params'] = ps
+    else:
+        ps = list(a['new_params'])
+        while ps and ps[-1]['name'] in e[1] and ps[-1]['default'] is not None and ps[-1]['kind'] == 'PosOrKw':
+            ps.pop()
+        b['new_params'] = ps
+    return params_agree(b)
+
+
+def static_oracles(ctx, tab, pkg):
+    """Direct evaluation of the static clauses on the extracted facts; every failure is a concrete
+    witness (alias, what is declared, what is expected)."""
+    for a in tab['aliases']:
+        key = alias_key(a)
+        if not params_agree_modulo(a):
+            ctx.violation(f'C20/params/{key}', f'deprecated {key} does not declare the parameters of its replacement {a["new"]}',
+                          {'alias': key, 'replacement': a['new'], 'old_params': a['old_params'], 'new_params': a['new_params']},
+                          'same names / order / kinds / defaults (or an old spelling renamed by the replacement\'s keyword map)',
+                          'declared parameter lists differ',
+                          how=f'compare inspect.signature({a["old"]}) and inspect.signature({a["new"]}) in {a["mod"]}')
+        exp = documented_replacement(tab, pkg, a)
+        if exp is None or exp != a['new']:
+            ctx.violation(f'C20/name/{key}', f'deprecated {key} forwards to `{a["new"]}` but its name designates `{exp}`',
+                          {'alias': key, 'forwards_to': a['new'], 'designated': exp, 'docstring_same_as': a['doc_same_as']},
+                          exp, a['new'],
+                          how=f'read the decorator of {a["old"]} in {a["mod"]}; stream alias_dyn compares it with `{exp}`')
+    for k in tab['kwuses']:
+        where = f'{k["mod"]}:{k["owner"] + "." if k["owner"] else ""}{k["name"]}'
+        named = [p['name'] for p in k['params'] if p['kind'] in ('PosOrKw', 'KwOnly')]
+        varkw = any(p['kind'] == 'VarKw' for p in k['params'])
+        news = [n for _, n in k['map'] if n is not None]
+        olds = [o for o, _ in k['map']]
+        bad = [n for n in news if not (n in named or (varkw and n in k['extra']))]
+        prob = None
+        if bad:
+            prob = f'new keyword(s) {bad} are not parameters of {k["name"]}'
+        elif len(set(news)) != len(news):
+            prob = 'two old keywords map to the same new keyword'
+        elif len(set(olds)) != len(olds) or set(olds) & set(p['name'] for p in k['params']) or set(olds) & set(news):
+            prob = 'an old keyword is listed twice, is still a live parameter, or is itself a new keyword'
+        if prob:
+            ctx.violation(f'C20/kwmap/{where}', f'@deprecated_parameters of {where}: {prob}',
+                          {'function': where, 'map': k['map'], 'parameters': [p['name'] for p in k['params']]},
+                          'a well-formed renaming', prob, how=f'call {k["name"]} with the old keyword')
+
+
+# ----------------------------------------------------------------------------------- streams
+def stream_enum(ctx, tab):
+    st = ctx.stream('alias_enum', 'static extraction vs Python itself after importing every module of the package: one case '
+                    'per alias (module, owner, old, new, first line), per @deprecated_parameters use (closure map), per class '
+                    '(package part of __mro__), per exposing (class, old name) pair (inspect.getattr_static); all non-trivial')
+    rt = ctx.impl('c20_enum.py', {'mode': 'enum'})
+    if rt['import_errors']:
+        ctx.stream_broken('alias_enum', f'modules that could not be imported: {rt["import_errors"]}')
+    S = {(a['mod'], a['owner'], a['old'], a['new'], a['line']): a for a in tab['aliases']}
+    D = {(a['mod'], a['owner'], a['old'], a['new'], a['line']): a for a in rt['aliases']}
+    for k in sorted(set(S) | set(D), key=str):
+        st.record({'alias': list(k)})
+        if k not in S or k not in D:
+            st.disagree({'alias': list(k)}, 'in the static table' if k in S else 'absent from the static table',
+                        'found at run time' if k in D else 'not found at run time')
+    for k, a in D.items():
+        if a.get('binder') == 'staticmethod' and k in S and S[k]['kind'] != 'Static':
+            st.disagree({'alias': list(k)}, S[k]['kind'], 'staticmethod')
+    SK = {(k['mod'], k['owner'], k['name'], k['line']): sorted([o, n] for o, n in k['map']) for k in tab['kwuses']}
+    DK = {(k['mod'], k['owner'], k['name'], k['line']): k['map'] for k in rt['kws']}
+    for k in sorted(set(SK) | set(DK), key=str):
+        st.record({'kwuse': list(k)})
+        if SK.get(k) != DK.get(k):
+            st.disagree({'kwuse': list(k)}, SK.get(k), DK.get(k))
+    for q, c in sorted(tab['classes'].items()):
+        st.record({'mro': q})
+        if rt['mros'].get(q) != c['mro']:
+            st.disagree({'class': q}, c['mro'], rt['mros'].get(q))
+    SE = {(q, n): tab['aliases'][i]['line'] for q, n, i in py_exposes(tab)}
+    DE = {(e['cls'], e['old']): e['line'] for e in rt['exposes']}
+    for k in sorted(set(SE) | set(DE)):
+        st.record({'exposes': list(k)})
+        if SE.get(k) != DE.get(k):
+            st.disagree({'exposes': list(k)}, SE.get(k), DE.get(k))
+    extra = sorted(set(rt['mros']) - set(tab['classes']))
+    st.extra['runtime_classes_not_in_table'] = extra
+    st.extra['counts'] = {'aliases': len(S), 'keyword_maps': len(SK), 'classes': len(tab['classes']), 'exposing_pairs': len(SE)}
+    if st.disagreements:
+        ctx.stream_broken('alias_enum', f'{len(st.disagreements)} disagreements, first: {st.disagreements[0]}')
+    return rt
+
+
+REACH_HEAD = '''From BV Require Import Model.Alias Gen.AliasTable.
+From Coq Require Import ZArith List String Bool.
+Import ListNotations.
+Open Scope string_scope.
+Definition reach_module (a : alias) : option fid :=
+  match run_wrapper deprecated_wrapper {| has_args := true; owned := false |},
+        run_wrapper deprecated_wrapper {| has_args := false; owned := false |} with
+  | (_, OForward CallCaptured), (_, OForward CallCaptured) => Some (a_captured a)
+  | _, _ => None end.
+Definition chk (c : string * string * string * fid) : bool :=
+  let '(cn, mn, old, f) := c in
+  if String.eqb cn "" then
+    existsb (fun a => String.eqb (a_mod a) mn && String.eqb (a_owner a) "" && String.eqb (a_old a) old &&
+                      ofid_eqb (reach_module a) (Some f)) aliases
+  else match find_cls classes cn with
+       | Some k => ofid_eqb (reach fuel_reach deprecated_wrapper T k old) (Some f)
+       | None => false end.
+'''
+
+
+def stream_reach(ctx, tab):
+    st = ctx.stream('alias_reach', 'every alias on every exposing package class (bare instance, None for each required '
+                    'parameter) and every module-level alias: the first package function entered after the wrappers of '
+                    'deprecated.py (sys.setprofile; the call is aborted at its entry) vs the model\'s reach; non-trivial = the '
+                    'class resolves the new name to another function than the captured one, or the alias is module-level')
+    cases = [{'cls': q, 'mod': '', 'old': n, 'idx': i} for q, n, i in py_exposes(tab)]
+    cases += [{'cls': '', 'mod': a['mod'], 'old': a['old'], 'idx': i} for i, a in enumerate(tab['aliases']) if not a['owner']]
+    shards = [cases[i::8] for i in range(8)]
+    outs = ctx.impl_parallel('c20_enum.py', [{'mode': 'reach', 'cases': s} for s in shards])
+    res = {}
+    for s, o in zip(shards, outs):
+        for c, r in zip(s, o['results']):
+            res[(c['cls'], c['mod'], c['old'])] = r
+    items, kept = [], []
+    for c in cases:
+        r = res[(c['cls'], c['mod'], c['old'])]
+        a = tab['aliases'][c['idx']]
+        nontriv = True
+        if c['cls']:
+            hit = py_mro_lookup(tab, c['cls'], a['new'])
+            nontriv = bool(hit and hit[1][0] == 'Fn' and hit[1][1] != a['captured'])
+        st.record({k: c[k] for k in ('cls', 'mod', 'old')}, nontrivial=nontriv)
+        if not r.get('ok'):
+            st.disagree(c, 'a function of the package is entered', r)
+            continue
+        qual = r['qual'].split('.')
+        owner, name = ('.'.join(qual[:-1]), qual[-1]) if len(qual) > 1 else ('', qual[0])
+        fid = {'mod': r['mod'] or '?', 'owner': owner, 'name': name, 'line': r['line']}
+        try:
+            items.append(f'({cs(c["cls"])}, {cs(c["mod"])}, {cs(c["old"])}, {c_fid(fid)})')
+            kept.append((c, r))
+        except Untranslatable:
+            st.disagree(c, 'ascii', r)
+    files, B = {}, 350
+    for i in range(0, len(items), B):
+        files[f'reach_{i // B}'] = (REACH_HEAD + 'Definition cases := ' + coq_list(items[i:i + B], ';\n') + '.\n'
+                                    'Eval vm_compute in (List.map chk cases).\n')
+    outs = ctx.coq_eval_many(files)
+    for k in sorted(files, key=lambda s: int(s.split('_')[1])):
+        ok, out = outs[k]
+        i0 = int(k.split('_')[1]) * B
+        n_here = len(items[i0:i0 + B])
+        if not ok:
+            ctx.stream_broken('alias_reach', 'model evaluation failed: ' + out[-600:])
+            continue
+        bs = parse_bools(out)
+        if len(bs) != n_here:
+            ctx.stream_broken('alias_reach', f'could not parse model output ({len(bs)} results for {n_here} cases)')
+            continue
+        for j, b in enumerate(bs):
+            if not b:
+                c, r = kept[i0 + j]
+                st.disagree(c, 'model reach differs', r)
+    if st.disagreements:
+        ctx.stream_broken('alias_reach', f'{len(st.disagreements)} disagreements, first: {st.disagreements[0]}')
+
+
+def dyn_cases(ctx, tab, pkg, rt):
+    rng = ctx.sub_rng('alias_dyn')
+    cases = []
+
+    def variants():
+        if not ctx.quick:
+            return list(range(8))
+        # the plain recipe (variant 0 or 4) plus one of the edge recipes (other residues mod 4)
+        return [4 * rng.randrange(2), rng.choice([1, 2, 3]) + 4 * rng.randrange(2)]
+
+    expo = py_exposes(tab)
+    for q, n, i in expo:
+        a = tab['aliases'][i]
+        exp = documented_replacement(tab, pkg, a)
+        for v in variants():
+            cases.append({'cls': q, 'mod': q.split(':')[0], 'old': n, 'new': exp, 'variant': v, 'seed': rng.randrange(10 ** 6),
+                          'alias': alias_key(a)})
+    for i, a in enumerate(tab['aliases']):
+        if a['owner']:
+            continue
+        exp = documented_replacement(tab, pkg, a)
+        for v in variants():
+            cases.append({'cls': '', 'mod': a['mod'], 'old': a['old'], 'new': exp, 'variant': v, 'seed': rng.randrange(10 ** 6),
+                          'alias': alias_key(a)})
+    return cases
+
+
+def load_corpus(name):
+    from common import VERIF
+    out = []
+    d = VERIF / 'corpus' / 'C20'
+    if d.exists():
+        for p in sorted(d.glob('*.json')):
+            j = json.loads(p.read_text())
+            if j.get('stream') == name:
+                out += j['cases']
+    return out
+
+
+def judge_dyn(ctx, st, r, kw=False):
+    """property oracle on one side-by-side run"""
+    c = r['case']
+    who = (c.get('cls') or c['mod']) + '.' + (c.get('old') or f'{c["func"]}({c["okw"]}=)')
+    if r['status'] != 'ran':
+        return
+    call = {k: c[k] for k in c if k != 'alias'}
+    how = ('./check C20 --replay <this file>  (runs lib/impl/c20_dyn.py on the witness: the old name and the replacement '
+           'are called on freshly built objects with the same arguments)')
+    for d in r['diffs']:
+        comp = d['component']
+        ctx.violation(f'C20/{"kw" if kw else "dyn"}/{who}/{comp}',
+                      f'{who}: calling the old name differs from calling `{c.get("new") or c.get("nkw")}` in {comp} at {d["at"]}',
+                      call, d.get('new'), d.get('old'), how)
+        break
+    want = 1
+    if r['alias_warnings'] != want:
+        ctx.violation(f'C20/{"kw" if kw else "dyn"}/{who}/warning-count',
+                      f'{who}: expected exactly one DeprecationWarning naming the old and the new name, saw {r["alias_warnings"]}',
+                      call, 'exactly one', {'count': r['alias_warnings'], 'seen': r['deprecation_seen']}, how)
+
+
+def stream_dyn(ctx, tab, pkg, rt):
+    st = ctx.stream('alias_dyn', 'every alias on every exposing class (and every module-level alias) x argument variants: the '
+                    'old name and the replacement its NAME designates (docstring "Same as X" / reviewed renaming / folded-name '
+                    'match -- not the decorator argument) are called on freshly built objects in separate processes and empty '
+                    'directories: result, exception, receiver+argument state, files, log records, stdout, other warnings '
+                    'compared structurally (object ids / time stamps canonicalised, doubles within 1e-9 relative for '
+                    'thread-order noise, components that differ between two runs of the replacement itself ignored); exactly '
+                    'one DeprecationWarning "<old> is deprecated; use <new> instead."; non-trivial = the call did not raise')
+    cases = load_corpus('alias_dyn') + dyn_cases(ctx, tab, pkg, rt)
+    nshard = 16
+    shards = [cases[i::nshard] for i in range(nshard)]
+    outs = ctx.impl_parallel('c20_dyn.py', [{'cases': s} for s in shards], timeout=1500)
+    results = [r for o in outs for r in o['results']]
+    per_alias, per_pair = {}, {}
+    status = {}
+    for r in results:
+        c = r['case']
+        status[r['status']] = status.get(r['status'], 0) + 1
+        if r['status'] == 'no-replacement':
+            continue  # reported by the static oracle C20/name/...
+        if r['status'] == 'harness-error':
+            raise RuntimeError(f'c20_dyn.py failed on {c}: {r.get("why")} {r.get("tb", "")}')
+        ak = c.get('alias') or f'{c["mod"]}:{c["old"]}'
+        pk = (c['cls'] or c['mod'], c['old'])
+        per_alias.setdefault(ak, set()).add(r['status'] if r['status'] != 'ran' else ('raised' if r['raised'] else 'ok'))
+        per_pair.setdefault(pk, set()).add(r['status'] if r['status'] != 'ran' else ('raised' if r['raised'] else 'ok'))
+        if r['status'] == 'ran':
+            st.record({k: c[k] for k in ('cls', 'mod', 'old', 'new', 'variant', 'seed')}, nontrivial=not r['raised'])
+            judge_dyn(ctx, st, r)
+    all_aliases = {alias_key(a) for a in tab['aliases']}
+    ran = {k for k, v in per_alias.items() if v & {'ok', 'raised'}}
+    ok = {k for k, v in per_alias.items() if 'ok' in v}
+    pairs_ran = {k for k, v in per_pair.items() if v & {'ok', 'raised'}}
+    overriding = set()
+    abstract = set(rt.get('abstract', []))
+    for q, n, i in py_exposes(tab):
+        if q in abstract:
+            continue  # no instance of an abstract class can exist
+        a = tab['aliases'][i]
+        hit = py_mro_lookup(tab, q, a['new'])
+        if hit and hit[1][0] == 'Fn' and hit[1][1] != a['captured']:
+            overriding.add((q, n))
+    st.extra['coverage'] = {
+        'aliases_total': len(all_aliases), 'aliases_called': len(ran & all_aliases),
+        'aliases_called_without_exception_at_least_once': len(ok & all_aliases),
+        'aliases_never_called': sorted(all_aliases - ran),
+        'aliases_only_raising': sorted((ran - ok) & all_aliases),
+        'pairs_total': len(per_pair), 'pairs_called': len(pairs_ran),
+        'overriding_pairs_total': len(overriding), 'overriding_pairs_called': len(overriding & pairs_ran),
+        'overriding_pairs_not_called': sorted(map(list, overriding - pairs_ran)),
+        'abstract_classes_skipped': sorted(abstract & {q for q, _, _ in py_exposes(tab)}),
+        'status': status,
+    }
+    # fail closed when the recipes degenerate
+    if len(ran & all_aliases) < 0.9 * len(all_aliases) or len(overriding & pairs_ran) < 0.9 * len(overriding):
+        ctx.stream_broken('alias_dyn', f'coverage degenerated: {st.extra["coverage"]}')
+
+
+def kw_cases(ctx, tab):
+    rng = ctx.sub_rng('kw_dyn')
+    cases = []
+    for k in tab['kwuses']:
+        q = f'{k["mod"]}:{k["owner"]}' if k['owner'] else ''
+        for o, n in k['map']:
+            for v in range(ctx.n(1, 3)):
+                cases.append({'kind': 'kw', 'cls': q, 'mod': k['mod'], 'func': k['name'], 'okw': o, 'nkw': n, 'variant': v,
+                              'seed': rng.randrange(10 ** 6), 'via': None})
+    # the old spelling through the deprecated alias of the function (T20a's keyword-map clause)
+    for a in tab['aliases']:
+        for o, n in a['captured_kwmap']:
+            if any(p['name'] == o for p in a['old_params']):
+                q = f'{a["mod"]}:{a["owner"]}' if a['owner'] else ''
+                cases.append({'kind': 'kw', 'cls': q, 'mod': a['mod'], 'func': a['new'], 'okw': o, 'nkw': n, 'variant': 0,
+                              'seed': rng.randrange(10 ** 6), 'via': a['old']})
+    return cases
+
+
+def stream_kw(ctx, tab):
+    st = ctx.stream('kw_dyn', 'every (function, old keyword -> new keyword) of every @deprecated_parameters map: the function '
+                    'called with the old keyword vs with the new one (ignored keywords: vs without it), same comparison as '
+                    'alias_dyn, exactly one DeprecationWarning for the keyword; plus the old spelling passed through the '
+                    'deprecated alias of the function; non-trivial = the call did not raise')
+    cases = kw_cases(ctx, tab)
+    nshard = 12
+    shards = [cases[i::nshard] for i in range(nshard)]
+    outs = ctx.impl_parallel('c20_dyn.py', [{'cases': s} for s in shards], timeout=1500)
+    status, uncovered = {}, []
+    for o in outs:
+        for r in o['results']:
+            c = r['case']
+            status[r['status']] = status.get(r['status'], 0) + 1
+            if r['status'] == 'harness-error':
+                raise RuntimeError(f'c20_dyn.py failed on {c}: {r.get("why")} {r.get("tb", "")}')
+            if r['status'] == 'ran':
+                st.record(c, nontrivial=not r['raised'])
+                judge_dyn(ctx, st, r, kw=True)
+            else:
+                uncovered.append([c['cls'] or c['mod'], c['func'], c['okw'], r['status'], r.get('why', '')[:80]])
+    st.extra['coverage'] = {'keyword_entries': len({(c['cls'], c['mod'], c['func'], c['okw']) for c in cases}),
+                            'status': status, 'not_called': uncovered[:40]}
+
+
+KW_HEAD = '''From BV Require Import Model.Alias.
+From Coq Require Import ZArith List String Bool.
+Import ListNotations.
+Open Scope string_scope.
+Definition ev_eqb (a b : kwevent) : bool :=
+  match a, b with
+  | EvRenamed o n, EvRenamed o' n' => String.eqb o o' && String.eqb n n'
+  | EvIgnored o, EvIgnored o' => String.eqb o o'
+  | _, _ => false end.
+Definition kv_eqb (a b : string * Z) : bool := String.eqb (fst a) (fst b) && Z.eqb (snd a) (snd b).
+Definition chk (c : list (string * option string) * list (string * Z) * list kwevent * list (string * Z)) : bool :=
+  let '(m, kw, ev, out) := c in
+  let '(ev', out') := rename_kwargs m kw in
+  forall2b ev_eqb ev' ev && forall2b kv_eqb out' out.
+'''
+
+
+def stream_kwloop(ctx):
+    st = ctx.stream('kw_loop', 'the wrapper of deprecated_parameters around a probe function vs Alias.rename_kwargs on generated '
+                    'maps (renamed / ignored entries, chains a->b->c, two old names onto one new name) and keyword arguments '
+                    '(old and new spelling together, untouched keywords): forwarded keywords in order with their values and the '
+                    'sequence of warnings; non-trivial = at least one obsolete keyword passed')
+    rng = ctx.sub_rng('kw_loop')
+    names = ['a', 'b', 'c', 'oldName', 'new_name', 'x1', 'kw', 'numberOfDraws', 'number_of_draws']
+    cases = []
+    for _ in range(ctx.n(200, 3000)):
+        m = []
+        for o in rng.sample(names, rng.randint(0, 4)):
+            m.append([o, None if rng.random() < 0.25 else rng.choice(names)])
+        keys = rng.sample(names, rng.randint(0, 5))
+        kw = [[k, rng.randint(-5, 50)] for k in keys]
+        cases.append({'map': m, 'kwargs': kw, 'args': [rng.randint(0, 3) for _ in range(rng.randint(0, 2))]})
+    res = ctx.impl('c20_kwloop.py', cases)
+    items, kept = [], []
+    for c, r in zip(cases, res):
+        nontriv = any(k in dict(map(tuple, c['map'])) for k, _ in c['kwargs'])
+        st.record(c, nontrivial=nontriv)
+        if not r['ok']:
+            st.disagree(c, 'the wrapper returns', r)
+            continue
+        if r['args'] != c['args'] or any(e[0] == 'other' for e in r['events']):
+            st.disagree(c, 'positional arguments forwarded unchanged, only DeprecationWarnings', r)
+            continue
+        ev = []
+        for e in r['events']:
+            ev.append(f'EvRenamed {cs(e[1])} {cs(e[2])}' if e[0] == 'renamed' else f'EvIgnored {cs(e[1])}')
+        kwv = dict(map(tuple, c['kwargs']))
+        bad_val = [e for e in r['events'] if e[0] == 'renamed' and str(kwv.get(e[1])) != e[3]]
+        if bad_val:
+            st.disagree(c, 'warning quotes the passed value', r)
+        items.append('(' + c_kwmap(c['map']) + ', ' + coq_list([f'({cs(k)}, ({v})%Z)' for k, v in c['kwargs']]) + ', '
+                     + coq_list(ev) + ', ' + coq_list([f'({cs(k)}, ({v})%Z)' for k, v in r['kwargs']]) + ')')
+        kept.append((c, r))
+    files, B = {}, 400
+    for i in range(0, len(items), B):
+        files[f'kwl_{i // B}'] = (KW_HEAD + 'Definition cases : list (list (string * option string) * list (string * Z) * '
+                                  'list kwevent * list (string * Z)) :=\n' + coq_list(items[i:i + B], ';\n') + '.\n'
+                                  'Eval vm_compute in (List.map chk cases).\n')
+    outs = ctx.coq_eval_many(files)
+    for k in sorted(files, key=lambda s: int(s.split('_')[1])):
+        ok, out = outs[k]
+        i0 = int(k.split('_')[1]) * B
+        n_here = len(items[i0:i0 + B])
+        if not ok:
+            ctx.stream_broken('kw_loop', 'model evaluation failed: ' + out[-600:])
+            continue
+        bs = parse_bools(out)
+        if len(bs) != n_here:
+            ctx.stream_broken('kw_loop', f'could not parse model output ({len(bs)} results for {n_here} cases)')
+            continue
+        for j, b in enumerate(bs):
+            if not b:
+                c, r = kept[i0 + j]
+                st.disagree(c, 'rename_kwargs differs', r)
+    if st.disagreements:
+        ctx.stream_broken('kw_loop', f'{len(st.disagreements)} disagreements, first: {st.disagreements[0]}')
+
+
+# --------------------------------------------------------------------------------- run / replay
+def run(ctx):
+    ctx.assumptions += ASSUME
+    ctx.trusted += TRUSTED
+    tab = pkg = None
+    try:
+        ex = Extractor().run()
+        pkg = ex.pkg
+        tab = extract_from(ex)
+        ctx.gen('AliasTable', emit(tab))
+    except Untranslatable as e:
+        ctx.tie_broken('py2v:AliasTable', str(e))
+    import time
+    t = time.time()
+    ctx.build()
+    ctx.notes['wall_build_s'] = round(time.time() - t, 1)
+
+    def timed(name, f, *a):
+        t0 = time.time()
+        r = f(*a)
+        if name in ctx.streams:
+            ctx.streams[name].extra['wall_s'] = round(time.time() - t0, 1)
+        return r
+
+    from concurrent.futures import ThreadPoolExecutor
+    pool = ThreadPoolExecutor(max_workers=5)
+    futs = [pool.submit(timed, 'kw_loop', stream_kwloop, ctx)]
+    if tab is None:
+        futs[0].result()
+        # the extraction failed: nothing static to compare; still look for failing inputs with the
+        # last generated table if any (none here) -- report the broken tie.
+        return
+    ctx.notes['tables'] = {'aliases': len(tab['aliases']), 'keyword_maps': len(tab['kwuses']), 'classes': len(tab['classes']),
+                           'wrapper_program': tab['deco']['prog'], 'RAISE_EXCEPTION': tab['deco']['flag']}
+    static_oracles(ctx, tab, pkg)
+    # the streams are independent: run them side by side (each one shards its own subprocesses)
+    futs.append(pool.submit(timed, 'alias_reach', stream_reach, ctx, tab))
+    futs.append(pool.submit(timed, 'kw_dyn', stream_kw, ctx, tab))
+    rt = timed('alias_enum', stream_enum, ctx, tab)
+    timed('alias_dyn', stream_dyn, ctx, tab, pkg, rt)
+    for f in futs:
+        f.result()
+    pool.shutdown()
+    ctx.violations.sort(key=lambda v: v['key'])
+    order = ['kw_loop', 'alias_enum', 'alias_reach', 'alias_dyn', 'kw_dyn']
+    ctx.streams = {k: ctx.streams[k] for k in order if k in ctx.streams}
+
+
+def replay(ctx, path):
+    w = json.load(open(path))
+    wit = w.get('witness')
+    if not isinstance(wit, dict):
+        print('replay: this file names an obligation/stream; re-run ./check C20')
+        return 2
+    if 'variant' in wit:  # a dynamic case
+        r = ctx.impl('c20_dyn.py', {'cases': [wit]})['results'][0]
+        bad = r['status'] == 'ran' and (bool(r['diffs']) or r['alias_warnings'] != 1)
+        print(json.dumps({'witness': wit, 'observed': {k: r.get(k) for k in ('status', 'diffs', 'alias_warnings', 'deprecation_seen',
+                                                                            'result_preview', 'why')},
+                          'still_fails': bad}))
+        return 1 if bad else 0
+    # static witnesses: re-evaluate the static oracles and look for the same key
+    ex = Extractor().run()
+    tab = extract_from(ex)
+    before = len(ctx.violations)
+    static_oracles(ctx, tab, ex.pkg)
+    hits = [v for v in ctx.violations[before:] if v['key'] == w.get('key')]
+    print(json.dumps({'key': w.get('key'), 'still_fails': bool(hits), 'observed': hits[:1]}, default=str))
+    return 1 if hits else 0
